@@ -278,6 +278,23 @@ def hist_duo(cases, outs):
     return h
 
 
+def gen_rot(rng):
+    cl, il, win = limits(rng)
+    r = rng.random()
+    if r < 0.6:
+        n = rng.randrange(0, 40)
+    elif r < 0.95:
+        n = rng.randrange(0, 3000)
+    else:
+        n = rng.choice([65534, 65535, 65536, 65537, 65538])
+    return [cl, il, win, n]
+
+
+def fixed_rot(tier):
+    # around the u16 wrap of the rotation counter (repaired by the wrapping_add fix), and the largest n
+    return [[64, 64, 10, n] for n in (0, 1, 2, 255, 256, 65535, 65536, 65537, 131071)] + [[0, 0, 0, 65537], [1, 1, 1, 70000]]
+
+
 def classify(p):
     """names the input class of a judged violation (used only to match KNOWN_FINDINGS.txt lines)"""
     try:
@@ -318,18 +335,22 @@ registry.register("C15", {
         {"name": "duo", "gen": gen_duo, "fixed": fixed_duo, "quick": 20000, "thorough": 600000,
          "valid": lambda c: len(c) >= 4 and all(0 <= v <= VMAX for v in c),
          "nontrivial": nontrivial_duo, "histogram": hist_duo},
+        {"name": "rot", "gen": gen_rot, "fixed": fixed_rot, "quick": 400, "thorough": 5000,
+         "valid": lambda c: len(c) >= 4 and all(0 <= v <= VMAX for v in c),
+         "nontrivial": lambda case, out: len(out) == 8 and out[1] >= 2,
+         "histogram": lambda cases, outs: {"n_ge_65536": sum(1 for c in cases if (c[3] % 131072) >= 65536),
+                                           "max_n": max((c[3] % 131072) for c in cases)}},
     ],
     "rule": "cases: corpus + boundary families (limit/window edges incl. 0 and window >= limit, integrity-limit edges, derivation-timer "
             "edges at expiry-1001..+1 us, update straight into the update window, reordered old-phase packet inside the derivation window, "
             "six consecutive peer-driven updates) + seeded random op sequences steered by a shadow endpoint (tiny limits 0..64 and the "
             "10_010/10_000 pair); ks: one real KeySet, ops encrypt / decrypt (generation a-1, a, a+1, a+2, forged; right or flipped phase bit) / "
-            "on_timeout; duo: two real KeySets exchanging their own packets through a drop/duplicate/reorder schedule with virtual time. "
+            "on_timeout; rot: a fresh real KeySet driven through n complete peer-driven updates, n up to 2^17 incl. 65535..65538 (u16 rotation counter wrap); duo: two real KeySets exchanging their own packets through a drop/duplicate/reorder schedule with virtual time. "
             "A ks case is non-trivial when it mixes at least two op kinds and reaches generation >= 1; a duo case when both endpoints seal, "
             "at least two op kinds occur and an endpoint ends at generation >= 1",
     "assumptions": [
         "ideal AEAD: opening succeeds iff the key tried has the generation the packet was sealed under; a forged packet opens under no key (Section-free model assumption, realised in the harness by the instrumented key type)",
         "packet numbers are assigned in increasing order by the transport (C08/C12), so 'higher packet number' = 'sealed later'",
-        "the u16 rotation counter `generation` (event payload only) is not driven to 65536 updates",
     ],
     "trusted_base": ["no axioms: Print Assumptions reports 'Closed under the global context' for every C15 theorem"],
     "explanation": "Coq theorems C15_* over the model of keyset.rs / limited.rs for all op sequences and all limit/window settings; model tied to the "
